@@ -34,6 +34,62 @@ Proof.
   unfold store_append, store_append_err, same_head. rewrite N.leb_refl, !N.eqb_refl. split; reflexivity.
 Qed.
 
+(** the list form of syncStore.Append (as of /repo 7d16f07) *)
+Lemma store_append_list_single st h :
+  store_append_list st [h] = (store_append st h, store_append_err st h).
+Proof.
+  unfold store_append_list, store_append, store_append_err. destruct st as [sh|]; [|reflexivity].
+  cbn [drop_below]. rewrite N.ltb_antisym.
+  destruct (h_height sh <=? h_height h); cbn [negb andb]; [|reflexivity].
+  cbn [walk]. destruct (same_head sh h); cbn; [reflexivity|].
+  destruct (h_height h =? wrap64 (h_height sh + 1)); reflexivity.
+Qed.
+
+(** an accepted walk ends at or above the old head and above every header it saw
+    (uint64 heights that do not wrap: every height involved is below 2^64 - 1) *)
+Lemma walk_covers l : forall head h', h_height head + 1 < two64 ->
+  (forall x, In x l -> h_height x + 1 < two64) -> walk head l = Some h' ->
+  h_height head <= h_height h' /\ forall x, In x l -> h_height x <= h_height h'.
+Proof.
+  induction l as [|h r IH]; intros head h' Hb Hl; cbn.
+  - intros [= <-]. split; [lia|intros x []].
+  - destruct (same_head head h) eqn:Hs.
+    + intros Hw. destruct (IH _ _ Hb (fun x Hx => Hl x (or_intror Hx)) Hw) as [H1 H2]. split; [exact H1|].
+      intros x [<-|Hx]; [|auto]. unfold same_head in Hs. apply andb_true_iff in Hs. destruct Hs as [Hs _].
+      apply N.eqb_eq in Hs. lia.
+    + destruct (N.eqb_spec (h_height h) (wrap64 (h_height head + 1))) as [E|]; [|discriminate].
+      intros Hw.
+      destruct (IH _ _ (Hl h (or_introl eq_refl)) (fun x Hx => Hl x (or_intror Hx)) Hw) as [H1 H2].
+      assert (E' : h_height h = h_height head + 1) by (unfold wrap64 in E; rewrite N.mod_small in E; assumption).
+      split; [lia|]. intros x [<-|Hx]; [exact H1|auto].
+Qed.
+
+(** the defect repaired by /repo 7d16f07, as a property of the shim: after an accepted
+    append to a non-empty store the head pointer is not below the old head nor below
+    any header of the list - also when the list starts below the head and reaches above it *)
+Lemma store_append_list_covers sh l st' :
+  h_height sh + 1 < two64 -> (forall x, In x l -> h_height x + 1 < two64) ->
+  store_append_list (Some sh) l = (st', false) ->
+  h_height sh <= hgt st' /\ forall x, In x l -> h_height x <= hgt st'.
+Proof.
+  intros Hb Hl. unfold store_append_list. destruct l as [|h0 r0] eqn:El; [intros [= <-]; cbn; split; [lia|intros x []]|].
+  rewrite <- El in *. clear El h0 r0.
+  assert (Hd : forall x, In x l -> In x (drop_below (h_height sh) l) \/ h_height x < h_height sh).
+  { induction l as [|h r IH]; [intros x []|]. intros x Hx. cbn.
+    destruct (N.ltb_spec (h_height h) (h_height sh)).
+    - destruct Hx as [<-|Hx]; [right; assumption|]. apply IH; [|exact Hx]. intros y Hy. apply Hl. right. exact Hy.
+    - left. exact Hx. }
+  assert (Hsub : forall x, In x (drop_below (h_height sh) l) -> In x l).
+  { clear Hd. induction l as [|h r IH]; [intros x []|]. intros x. cbn.
+    destruct (h_height h <? h_height sh); [intros Hx; right; apply IH; [|exact Hx]; intros y Hy; apply Hl; right; exact Hy|auto]. }
+  destruct (drop_below (h_height sh) l) as [|h1 r1] eqn:Er.
+  - intros [= <-]. cbn. split; [lia|]. intros x Hx. destruct (Hd x Hx) as [[]|Hlt]. lia.
+  - rewrite <- Er in *. destruct (walk sh (drop_below (h_height sh) l)) as [h'|] eqn:Hw; [|discriminate].
+    intros [= <-]. cbn.
+    destruct (walk_covers _ _ _ Hb (fun x Hx => Hl x (Hsub x Hx)) Hw) as [H1 H2].
+    split; [exact H1|]. intros x Hx. destruct (Hd x Hx) as [Hin|Hlt]; [apply H2; exact Hin|lia].
+Qed.
+
 (** setLocalHead with the header that already IS the store head: a no-op, whatever is pending *)
 Lemma slh_redeliver s h : s_store s = Some h -> set_local_head s h = s /\ store_append_err (s_store s) h = false.
 Proof.
